@@ -13,7 +13,8 @@ LEVEL_TEXT = ("Clause-level static rules: summary application uses the RENAMED i
               "walks the SCC graph in reverse topological order and the top-down phase in the opposite order, summaries are "
               "projected on the formals before being stored, recursive components get a top calling context; calling contexts "
               "are projected on the inputs before being stored and are JOINED per function. The SCC / topological-sort algorithms "
-              "and the precision of domain conversion are NOT decided.")
+              "and the precision of domain conversion are NOT decided."
+              " Every inter-component call-graph edge reaches add_edge in the construction of the component DAG (loop never left early).")
 ASSUMPTIONS = ["scc_graph / rev_topo_sort compute a reverse topological order of the SCCs (graph algorithm, not decided)",
                "domain operations are sound (C03/C04)"]
 
